@@ -100,6 +100,7 @@ pub fn validate_merge_probe<S: Sut>(w: &mut World<S>, a: &StateRef, b: &StateRef
             _ => None,
         };
         if let Some(c) = clash {
+            w.stats.misuse_clashes += 1;
             if ok1 || ok2 {
                 return fail(
                     w.step,
